@@ -251,7 +251,8 @@ fn accept_tail(spec: &Spec) -> Vec<u64> {
     match spec {
         Spec::So3 { bounds, .. } => {
             let c = bounds.as_ref().map(|b| b.0).unwrap_or([0.0, 0.0, 0.0, 1.0]);
-            c.iter().map(|x| word_for_unit((0.5 * x + 1.0) / 2.0)).collect()
+            // just inside the unit ball and (after normalisation) exactly the centre direction
+            c.iter().map(|x| word_for_unit(((1.0 - 1e-8) * x + 1.0) / 2.0)).collect()
         }
         Spec::Rv { dim, .. } => vec![word_for_unit(0.5); *dim],
         Spec::So2 { .. } => vec![word_for_unit(0.5)],
@@ -283,11 +284,11 @@ fn c11_sample<K: Kit>(spec: &Spec, k: usize, rep: &mut Report) {
         // the pinned sampler and then a long fixed pseudo-random tail, so that any sampler with a
         // positive acceptance probability terminates
         script.extend_from_slice(&tail);
-        script.extend((0..2048u64).map(crate::rngseam::mix));
+        script.extend((0..16384u64).map(crate::rngseam::mix));
         rep.count("evaluations", 1);
         let r = guarded(|| {
             let mut rng = WordRng::new(script.clone());
-            rng.cap = 2000;
+            rng.cap = 16000;
             sp.sample_uniform(&mut rng).map(|s| {
                 let ok = sp.satisfies_bounds(&s);
                 (s, ok)
